@@ -11,8 +11,8 @@ from array import array
 
 from . import boot
 
-EVIDENCE_DIR = os.path.join(boot.VERIF_DIR, "evidence")
-REPLAY_DIR = os.path.join(boot.VERIF_DIR, "replays")
+EVIDENCE_DIR = os.environ.get("VERIF_EVIDENCE_DIR") or os.path.join(boot.VERIF_DIR, "evidence")
+REPLAY_DIR = os.environ.get("VERIF_REPLAY_DIR") or os.path.join(boot.VERIF_DIR, "replays")
 FINDINGS_FILE = os.path.join(boot.VERIF_DIR, "known_findings.json")
 DISTINCT_CAP = 400_000          # per process; evidence says so when the cap is hit
 MAX_REPLAYS = 12                # witness files written per run (all violations are counted)
